@@ -49,6 +49,9 @@ structure Ops (M F α : Type) where
 structure Consts where
   base : Nat
   clones : Bool
+  /-- `jitter_new` is bound when the `raise` after the loop formats it even if the loop never ran
+  (false for the code as it is: `max_tries = 0` ends in UnboundLocalError) -/
+  jitterNewBound : Bool := false
 
 /-- The process state the function reads. -/
 structure Env (α : Type) where
@@ -144,7 +147,7 @@ def psdSafeCholeskyCore [Zero α] [Sub α] [Mul α] [NatCast α] (ops : Ops M F 
     if r.1 then
       { result := .ok (factors s.st), calls := s.calls, warns := s.warns, work := work, input := input, outBuf := ob (factors s.st) }
     else
-      { result := .error (if r.2.1 = 0 then .unboundLocalError else .notPSDError),
+      { result := .error (if r.2.1 = 0 && !c.jitterNewBound then .unboundLocalError else .notPSDError),
         calls := s.calls, warns := s.warns, work := work, input := input, outBuf := ob (factors s.st) }
 
 /-- `psd_safe_cholesky(A, upper, out, jitter, max_tries)` -/
